@@ -305,6 +305,42 @@ impl<'a> Context<'a> {
         None
     }
 
+    /// Return the state that results from the read accesses performed by the given jump instruction.
+    ///
+    /// During the fixpoint computation these accesses are only recorded in the states that flow to the targets of the jump.
+    /// Jumps without a target in the control flow graph
+    /// (return instructions, indirect jumps without known targets, calls without a return site or to non-returning functions)
+    /// would not contribute to the function signature at all.
+    /// This function is used to also account for their accesses when the function signatures are extracted.
+    pub fn get_state_after_jump_accesses(&self, state: &State, jump: &Term<Jmp>) -> State {
+        let mut new_state = state.clone();
+        match &jump.term {
+            Jmp::BranchInd(expression)
+            | Jmp::Return(expression)
+            | Jmp::CBranch {
+                condition: expression,
+                ..
+            } => new_state.set_read_flag_for_input_ids_of_expression(expression),
+            Jmp::CallInd { target, .. } => {
+                new_state.set_read_flag_for_input_ids_of_expression(target);
+                if let Some(cconv) = self.project.get_standard_calling_convention() {
+                    new_state.handle_unknown_function_stub(
+                        jump,
+                        cconv,
+                        &self.project.runtime_memory_image,
+                    );
+                }
+            }
+            Jmp::Call { target, .. } => {
+                if let Some(extern_symbol) = self.project.program.term.extern_symbols.get(target) {
+                    self.handle_extern_symbol_call(&mut new_state, extern_symbol, &jump.tid);
+                }
+            }
+            Jmp::Branch(_) | Jmp::CallOther { .. } => (),
+        }
+        new_state
+    }
+
     /// Adjust the stack register after a call to a function.
     ///
     /// On x86, this removes the return address from the stack
